@@ -22,14 +22,14 @@ type Bound struct {
 
 // Scan is one base-table read of a statement.
 type Scan struct {
-	Table   string   `json:"table"`
-	Raw     string   `json:"raw_table"`
-	Alias   string   `json:"alias,omitempty"`
-	IsJoin  bool     `json:"is_join,omitempty"`
-	Bounds  []Bound  `json:"bounds"`
-	Unknown []string `json:"unknown,omitempty"` // predicates on a time column that were not understood (infrastructure)
-	Phase   []string `json:"phase,omitempty"`   // `timestamp_ms % step ...` filters (only ever narrow the read)
-	InJoinBlock bool `json:"in_join_block,omitempty"` // the block has JOIN / ARRAY JOIN clauses
+	Table       string   `json:"table"`
+	Raw         string   `json:"raw_table"`
+	Alias       string   `json:"alias,omitempty"`
+	IsJoin      bool     `json:"is_join,omitempty"`
+	Bounds      []Bound  `json:"bounds"`
+	Unknown     []string `json:"unknown,omitempty"`       // predicates on a time column that were not understood (infrastructure)
+	Phase       []string `json:"phase,omitempty"`         // `timestamp_ms % step ...` filters (only ever narrow the read)
+	InJoinBlock bool     `json:"in_join_block,omitempty"` // the block has JOIN / ARRAY JOIN clauses
 }
 
 // isPhaseFilter recognises processHints' `timestamp_ms % step = 0 OR timestamp_ms % step >= step - range`: a further
@@ -80,6 +80,17 @@ func timeCol(e chsql.Expr, sc *chsql.TableRef) string {
 		return ""
 	}
 	last := id.Parts[len(id.Parts)-1]
+	if len(id.Parts) == 1 && sc.Select != nil {
+		// an alias of the select list that merely renames the column (timestamp_ns AS start_time_unix_nano)
+		for _, c := range sc.Select.Columns {
+			if c.Alias() == last {
+				if src, ok := c.(*chsql.Ident); ok {
+					last = src.Parts[len(src.Parts)-1]
+				}
+				break
+			}
+		}
+	}
 	if len(id.Parts) > 1 {
 		q := id.Parts[len(id.Parts)-2]
 		if q != sc.Table.Name() && q != sc.Table.Table && baseTable(q) != baseTable(sc.Table.Table) {
@@ -410,17 +421,17 @@ func keys(m map[string]bool) []string {
 
 // ScanClass is the classification of one scan for one request: per bound the set of derivations that explain it.
 type ScanClass struct {
-	Table  string     `json:"table"`
-	TsLo   *BoundCls  `json:"ts_lo,omitempty"`
-	TsHi   *BoundCls  `json:"ts_hi,omitempty"`
-	DLo    *BoundCls  `json:"d_lo,omitempty"`
-	DHi    *BoundCls  `json:"d_hi,omitempty"`
-	Type   []int64    `json:"type,omitempty"`
-	HasTy  bool       `json:"has_type"`
-	Extra  []string   `json:"extra,omitempty"` // more than one bound of a kind, equality on a time column, ...
-	Bounds []Bound    `json:"bounds"`
-	Unk    []string   `json:"unknown,omitempty"`
-	IsJoin bool       `json:"is_join,omitempty"`
+	Table  string    `json:"table"`
+	TsLo   *BoundCls `json:"ts_lo,omitempty"`
+	TsHi   *BoundCls `json:"ts_hi,omitempty"`
+	DLo    *BoundCls `json:"d_lo,omitempty"`
+	DHi    *BoundCls `json:"d_hi,omitempty"`
+	Type   []int64   `json:"type,omitempty"`
+	HasTy  bool      `json:"has_type"`
+	Extra  []string  `json:"extra,omitempty"` // more than one bound of a kind, equality on a time column, ...
+	Bounds []Bound   `json:"bounds"`
+	Unk    []string  `json:"unknown,omitempty"`
+	IsJoin bool      `json:"is_join,omitempty"`
 }
 
 type BoundCls struct {
